@@ -433,9 +433,10 @@ _SIZES = {'double': 8, 'float': 4, 'unsigned int': 4, 'int': 4, 'unsigned long':
 
 
 class Model:
-    def __init__(self, fb, enum_sizes=None, max_steps=20000, hooks=None, atomic_points=True):
+    def __init__(self, fb, enum_sizes=None, max_steps=20000, hooks=None, atomic_points=True, node_values=None):
         self.fb = fb
         self.hooks = hooks or {}
+        self.node_values = node_values or {}      # {(id(fn), node id): value}: sub-expressions given as opaque inputs
         self.atomic_points = atomic_points
         self.enum_sizes = enum_sizes or {}
         self.max_steps = max_steps
@@ -672,7 +673,24 @@ class _Frame:
         n = fn.nodes.get(nid)
         if n is None:
             raise ModelUnknown('%s: missing node' % fn.q)
+        if self.m.node_values and (id(fn), nid) in self.m.node_values:
+            return self.m.node_values[(id(fn), nid)]
         k = n.get('k')
+        if k in ('icast', 'cast') and n.get('ck') == 'FloatingToIntegral' and 'sub' in n:
+            v = self.ev(n['sub'])
+            if isinstance(v, float):
+                t = (n.get('t') or '').replace('const ', '')
+                sz = _SIZES.get(t)
+                if sz is None:
+                    self.unknown(nid, 'conversion to %s' % t)
+                lo, hi = (0, (1 << (8 * sz)) - 1) if t.startswith('unsigned') else (-(1 << (8 * sz - 1)), (1 << (8 * sz - 1)) - 1)
+                if v != v or v in (float('inf'), float('-inf')) or not (lo - 1 < v < hi + 1):
+                    raise ModelError('the floating point value %r is converted to %s, whose range is [%d, %d]: undefined behaviour' % (v, t, lo, hi))
+                return int(v)
+            return v
+        if k in ('icast', 'cast') and n.get('ck') == 'IntegralToFloating' and 'sub' in n:
+            v = self.ev(n['sub'])
+            return float(v) if isinstance(v, int) and not isinstance(v, bool) else v
         if k in ('wrap', 'icast'):
             if 'sub' not in n:
                 return None
@@ -873,6 +891,12 @@ class _Frame:
             return None
         if q in ('std::move', 'std::forward') and len(args) == 1:
             return self.ev(args[0])
+        if q in ('std::min', 'std::max') and len(args) == 2:
+            a, b = self.ev(args[0]), self.ev(args[1])
+            if isinstance(a, (int, float)) and isinstance(b, (int, float)):
+                # [alg.min.max]: min(a, b) is b if b < a, else a; max(a, b) is b if a < b, else a (NaN compares false)
+                return (b if b < a else a) if q == 'std::min' else (b if a < b else a)
+            self.unknown(nid, '%s of these operands' % q)
         if nm == 'str_push' and len(args) == 2:
             s = self.ev(args[0])
             v = self.ev(args[1])
